@@ -81,7 +81,7 @@ def main():
             print("check %s: exit %d, %d violations %s" % (p, rc, len(viol), det[0][:200] if det else ""))
     finally:
         sh("git -C /repo checkout -- . && git -C /repo clean -fdq")
-        sh("rm -rf /verif/replays")
+        sh("rm -rf /verif/replays; git -C /verif checkout -- evidence")
     dst = os.path.join("/verif/seeded", sid)
     os.makedirs(dst, exist_ok=True)
     shutil.copy(patch, os.path.join(dst, "patch.diff"))
